@@ -69,6 +69,14 @@ def handle(job):
         mism.append({"clause": "statistics_not_refreshed", "step": t, "stat": k})
       if exp["rc"] and not rc:
         mism.append({"clause": "roots_not_refreshed", "step": t, "stat": k})
+    # ekfac_svd: the SVD factors used for preconditioning are rewritten on every step (and only then)
+    if cur["params"][name] is not None and "svd" in cur["params"][name]:
+      for k, (a, b) in enumerate(zip(prev["params"][name]["svd"], cur["params"][name]["svd"])):
+        ch = a != b
+        if ch and not exp.get("svd", False):
+          mism.append({"clause": "svd_factors_changed_without_ekfac", "step": t, "stat": k})
+        if exp.get("svd", False) and not ch:
+          mism.append({"clause": "ekfac_svd_factors_not_rewritten", "step": t, "stat": k})
     if cur["params"][name] is not None:
       s, rr = _stat_vals(cur["params"][name])
       L = len(exp["stats"])
